@@ -89,6 +89,7 @@ class TriggerHandler:
         self.__old_thread_trace = None
         self.__old_sys_trace = None
         self.__hooks_installed = False
+        self.__inert = False
         self._push_service = push_service
         self._tp_config: List[Trigger] = []
         self._config = config
@@ -99,6 +100,7 @@ class TriggerHandler:
         """Start the trigger handler."""
         # if we call settrace we cannot use debugger,
         # so we allow the settrace to be disabled, so we can at least debug around it
+        self.__inert = False
         if self._config.NO_TRACE:
             return
         self.__old_sys_trace = sys.gettrace()
@@ -149,6 +151,9 @@ class TriggerHandler:
             return self.trace_call
 
     def _trace_call(self, frame: FrameType, event: str, arg):
+        if self.__inert:
+            # we have been shut down: take no action and stop tracing this scope
+            return None
         event, file, line, function = self.location_from_event(event, frame)
         trigger_context = TriggerContext(self._config, self._push_service, frame, event, arg)
 
@@ -241,6 +246,9 @@ class TriggerHandler:
 
         Reset the settrace to the previous values.
         """
+        # threads that are already running keep their trace function (it is per thread), so from now on the
+        # handler ignores every event
+        self.__inert = True
         # only put back what start() replaced: when tracing is disabled by config we never touched the hooks
         if self.__hooks_installed:
             sys.settrace(self.__old_sys_trace)
